@@ -97,7 +97,16 @@ def new_archive(ex, policy=None, createnew='local'):
     hdr = JsonDoc(mk(ex, 'archive::ArchiveHeader', conserve_archive_version='0.6'), 'ArchiveHeader', 30)
     hdr.newline = True
     st.put_file('CONSERVE', hdr)
-    ar = mk(ex, 'archive::Archive', transport=TransportV(st, ''))
+    names = ex.prog.src.struct_fields('archive::Archive')
+    if names == ['transport']:
+        ar = mk(ex, 'archive::Archive', transport=TransportV(st, ''))
+    else:
+        # the struct carries more than the transport (a cache, say): let the real Archive::open build the value
+        ar = run_async(ex, fn_by(ex.prog, 'Archive', None, 'open'), [TransportV(st, '')])
+        if ar.variant != 0:
+            raise Unsupported('Archive::open failed on the harness archive')
+        ar = ar.fields[0]
+        st.log.clear() if hasattr(st, 'log') and isinstance(st.log, list) else None
     return st, ar
 
 
